@@ -62,7 +62,6 @@ structure Entry where
   op : Op
   lockAt : Nat
   writeAt : Nat
-  deriving DecidableEq, Repr
 
 structure TThr where
   todo : List Op
@@ -129,7 +128,9 @@ def erun (c : TConf) : List Ev → TConf
 def tinit (s0 : St) (progs : Nat → List Op) : TConf :=
   ⟨s0, none, 0, fun i => ⟨progs i, .idle, s0, 0, 0⟩, []⟩
 
-structure TInv (s0 : St) (c : TConf) : Prop where
+/-- `P`: any property of operations that holds of every operation of every program and does not depend on the
+clock reading (`P op → P (op.withNow n)`), e.g. "comes from `progs`" or "its caller-supplied options are tame". -/
+structure TInv (P : Op → Prop) (s0 : St) (c : TConf) : Prop where
   excl : ∀ t, (c.thr t).phase ≠ .idle → c.holder = some t
   fresh : ∀ t, (c.thr t).phase = .read → (c.thr t).seen = c.st
   win : ∀ t, (c.thr t).phase = .read → (c.thr t).lockAt ≤ (c.thr t).seenNow ∧ (c.thr t).seenNow ≤ c.clock
@@ -139,13 +140,23 @@ structure TInv (s0 : St) (c : TConf) : Prop where
   stamps : ∀ e ∈ c.log, ∀ n, e.op.now? = some n → e.lockAt ≤ n ∧ n ≤ e.writeAt
   ord : c.log.Pairwise (fun a b => a.writeAt ≤ b.lockAt)
   serial : c.st = run s0 (c.log.map (·.op))
+  todoP : ∀ t, ∀ op ∈ (c.thr t).todo, P op
+  logP : ∀ e ∈ c.log, P e.op
 
-theorem tinv_init (s0 : St) (progs : Nat → List Op) : TInv s0 (tinit s0 progs) :=
+theorem tinv_init (P : Op → Prop) (s0 : St) (progs : Nat → List Op) (hP : ∀ t, ∀ op ∈ progs t, P op) :
+    TInv P s0 (tinit s0 progs) :=
   ⟨fun t h => absurd rfl h, fun t h => by simp [tinit] at h, fun t h => by simp [tinit] at h,
    fun t h => by simp [tinit] at h, fun e he => by simp [tinit] at he, fun e he => by simp [tinit] at he,
-   by simp [tinit], rfl⟩
+   by simp [tinit], rfl, hP, fun e he => by simp [tinit] at he⟩
 
-theorem thrStep_inv {s0 : St} {c : TConf} (hi : TInv s0 c) (t : Nat) : TInv s0 (thrStep true c t) := by
+theorem thrStep_inv {P : Op → Prop} (hW : ∀ op n, P op → P (op.withNow n)) {s0 : St} {c : TConf}
+    (hi : TInv P s0 c) (t : Nat) : TInv P s0 (thrStep true c t) := by
+  -- the todo lists only shrink
+  have keepTodo : ∀ (x : TThr), x.todo = (c.thr t).todo → ∀ u, ∀ op ∈ (setT c t x u).todo, P op := by
+    intro x hx u
+    by_cases hut : u = t
+    · subst hut; simp only [setT_same, hx]; exact hi.todoP u
+    · simp only [setT_other c t u _ hut]; exact hi.todoP u
   unfold thrStep
   cases htodo : (c.thr t).todo with
   | nil => exact hi
@@ -163,7 +174,7 @@ theorem thrStep_inv {s0 : St} {c : TConf} (hi : TInv s0 c) (t : Nat) : TInv s0 (
           | locked => have := hi.excl u (by rw [hu]; simp); rw [hh] at this; cases this
           | read => have := hi.excl u (by rw [hu]; simp); rw [hh] at this; cases this
           | written => have := hi.excl u (by rw [hu]; simp); rw [hh] at this; cases this
-        refine ⟨?_, ?_, ?_, ?_, hi.past, hi.stamps, hi.ord, hi.serial⟩
+        refine ⟨?_, ?_, ?_, ?_, hi.past, hi.stamps, hi.ord, hi.serial, keepTodo _ rfl, hi.logP⟩
         · intro u hu
           by_cases hut : u = t
           · subst hut; rfl
@@ -191,7 +202,7 @@ theorem thrStep_inv {s0 : St} {c : TConf} (hi : TInv s0 c) (t : Nat) : TInv s0 (
     | locked =>
       simp only
       have hlk := hi.lk t (Or.inl hph)
-      refine ⟨?_, ?_, ?_, ?_, hi.past, hi.stamps, hi.ord, hi.serial⟩
+      refine ⟨?_, ?_, ?_, ?_, hi.past, hi.stamps, hi.ord, hi.serial, keepTodo _ rfl, hi.logP⟩
       · intro u hu
         by_cases hut : u = t
         · subst hut; exact hi.excl u (by rw [hph]; simp)
@@ -225,7 +236,14 @@ theorem thrStep_inv {s0 : St} {c : TConf} (hi : TInv s0 c) (t : Nat) : TInv s0 (
         | locked => have := hi.excl u (by rw [hu]; simp); rw [hhold] at this; exact absurd (Option.some.inj this).symm hut
         | read => have := hi.excl u (by rw [hu]; simp); rw [hhold] at this; exact absurd (Option.some.inj this).symm hut
         | written => have := hi.excl u (by rw [hu]; simp); rw [hhold] at this; exact absurd (Option.some.inj this).symm hut
-      refine ⟨?_, ?_, ?_, ?_, ?_, ?_, ?_, ?_⟩
+      refine ⟨?_, ?_, ?_, ?_, ?_, ?_, ?_, ?_, keepTodo _ rfl, ?_⟩
+      rotate_left 8
+      · intro e he
+        rcases List.mem_append.mp he with he | he
+        · exact hi.logP e he
+        · simp only [List.mem_singleton] at he
+          subst he
+          exact hW op _ (hi.todoP t op (by rw [htodo]; simp))
       · intro u hu
         by_cases hut : u = t
         · subst hut; exact hhold
@@ -272,7 +290,15 @@ theorem thrStep_inv {s0 : St} {c : TConf} (hi : TInv s0 c) (t : Nat) : TInv s0 (
     | written =>
       simp only
       have hhold := hi.excl t (by rw [hph]; simp)
-      refine ⟨?_, ?_, ?_, ?_, hi.past, hi.stamps, hi.ord, hi.serial⟩
+      have shrink : ∀ u, ∀ o ∈ (setT c t { c.thr t with todo := rest, phase := .idle } u).todo, P o := by
+        intro u
+        by_cases hut : u = t
+        · subst hut
+          simp only [setT_same]
+          intro o ho
+          exact hi.todoP u o (by rw [htodo]; simp [ho])
+        · simp only [setT_other c t u _ hut]; exact hi.todoP u
+      refine ⟨?_, ?_, ?_, ?_, hi.past, hi.stamps, hi.ord, hi.serial, shrink, hi.logP⟩
       · intro u hu
         by_cases hut : u = t
         · subst hut; simp [setT_same] at hu
@@ -296,21 +322,27 @@ theorem thrStep_inv {s0 : St} {c : TConf} (hi : TInv s0 c) (t : Nat) : TInv s0 (
         · simp only [setT_other c t u _ hut] at hu ⊢
           exact hi.lk u hu
 
-theorem tstep_inv {s0 : St} {c : TConf} (hi : TInv s0 c) (e : Ev) : TInv s0 (tstep c e) := by
+theorem tstep_inv {P : Op → Prop} (hW : ∀ op n, P op → P (op.withNow n)) {s0 : St} {c : TConf}
+    (hi : TInv P s0 c) (e : Ev) : TInv P s0 (tstep c e) := by
   cases e with
   | tick d =>
     simp only [tstep]
-    refine ⟨hi.excl, hi.fresh, ?_, ?_, ?_, hi.stamps, hi.ord, hi.serial⟩
+    refine ⟨hi.excl, hi.fresh, ?_, ?_, ?_, hi.stamps, hi.ord, hi.serial, hi.todoP, hi.logP⟩
     · intro t ht; have := hi.win t ht; exact ⟨this.1, Nat.le_trans this.2 (Nat.le_add_right _ _)⟩
     · intro t ht; have := hi.lk t ht; exact ⟨Nat.le_trans this.1 (Nat.le_add_right _ _), this.2⟩
     · intro e he; have := hi.past e he; exact ⟨this.1, Nat.le_trans this.2 (Nat.le_add_right _ _)⟩
-  | thr t => exact thrStep_inv hi t
+  | thr t => exact thrStep_inv hW hi t
   | clk t =>
     simp only [tstep]
     by_cases hph : (c.thr t).phase = .read
     · simp only [hph, if_true]
       have hlk := hi.lk t (Or.inr hph)
-      refine ⟨?_, ?_, ?_, ?_, hi.past, hi.stamps, hi.ord, hi.serial⟩
+      refine ⟨?_, ?_, ?_, ?_, hi.past, hi.stamps, hi.ord, hi.serial, ?_, hi.logP⟩
+      rotate_left 4
+      · intro u
+        by_cases hut : u = t
+        · subst hut; simp only [setT_same]; exact hi.todoP u
+        · simp only [setT_other c t u _ hut]; exact hi.todoP u
       · intro u hu
         by_cases hut : u = t
         · subst hut; exact hi.excl u (by rw [hph]; simp)
@@ -333,9 +365,14 @@ theorem tstep_inv {s0 : St} {c : TConf} (hi : TInv s0 c) (e : Ev) : TInv s0 (tst
           exact hi.lk u hu
     · simp only [hph, if_false]; exact hi
 
-theorem trun_inv {s0 : St} {c : TConf} (hi : TInv s0 c) (evs : List Ev) : TInv s0 (trun c evs) := by
+theorem trun_inv {P : Op → Prop} (hW : ∀ op n, P op → P (op.withNow n)) {s0 : St} {c : TConf}
+    (hi : TInv P s0 c) (evs : List Ev) : TInv P s0 (trun c evs) := by
   induction evs generalizing c with
   | nil => exact hi
-  | cons e es ih => exact ih (tstep_inv hi e)
+  | cons e es ih => exact ih (tstep_inv hW hi e)
+
+/-- tameness of the caller-supplied options does not depend on the clock reading -/
+theorem Op.tame_withNow (op : Op) (n : Nat) (h : op.Tame) : (op.withNow n).Tame := by
+  cases op <;> first | exact h | trivial
 
 end ScVerif.C19
